@@ -51,7 +51,7 @@ func encodeObjTypeAndLen(buf encoding.Bufferer, objType int, u uint64) []byte {
 
 func decodeObjTypeAndLen(r io.Reader) (objType int, u uint64, err error) {
 	b := make([]byte, 1)
-	_, err = r.Read(b)
+	_, err = io.ReadFull(r, b)
 	if err != nil {
 		return
 	}
@@ -59,7 +59,7 @@ func decodeObjTypeAndLen(r io.Reader) (objType int, u uint64, err error) {
 	u = uint64(b[0] & 15)
 	bits := 4
 	for {
-		_, err = r.Read(b)
+		_, err = io.ReadFull(r, b)
 		if errors.Is(err, io.EOF) {
 			return 0, 0, fmt.Errorf("reading size: data corrupted")
 		}
@@ -156,14 +156,14 @@ func NewPackfileReader(r io.ReadCloser) (*PackfileReader, error) {
 
 func (r *PackfileReader) readVersion() error {
 	b := r.buf.Buffer(4)
-	_, err := r.r.Read(b)
+	_, err := io.ReadFull(r.r, b)
 	if err != nil {
 		return fmt.Errorf("error reading PACK string: %v", err)
 	}
 	if string(b) != "PACK" {
 		return fmt.Errorf("not a packfile")
 	}
-	_, err = r.r.Read(b)
+	_, err = io.ReadFull(r.r, b)
 	if err != nil {
 		return fmt.Errorf("error reading packfile version: %v", err)
 	}
